@@ -7,7 +7,7 @@ for N in $NAMES; do
   WT=/tmp/wt_seedcheck_$$
   git -C /repo worktree add -q --detach $WT HEAD || exit 2
   if git -C $WT apply /verif/seeded/$N/patch.diff; then
-    OUT=$(FSIM_REPO=$WT ./check $P --no-evidence --no-shrink 2>&1); RC=$?
+    OUT=$(FSIM_REPO=$WT VERIF_SEED=${SEED:-0} ./check $P --no-evidence --no-shrink 2>&1); RC=$?
     SIG=$(echo "$OUT" | grep -E "^\s+$P\|" | head -2 | cut -c1-170)
     printf "%-52s %s rc=%s\n" "$N" "$P" "$RC"; echo "$SIG"
   else
